@@ -137,7 +137,7 @@ func (c20) build(src *gen.Source) *Case {
 			tmpl = strings.ReplaceAll(tmpl, "P", src.Pick([]string{"*", "p*", "?", "1", "a*", "*3", "z"}))
 			if src.Chance(1, 6) {
 				// expansions that consult HOME / IFS or nest an arithmetic assignment in the operator word
-				tmpl = src.Pick([]string{"~", "~/x", "a:~:b", "$N", "x$N", "${N:=$((_y1=7))}", "${N:-$((X=3))}", "${N:+$((X=4))}"})
+				tmpl = src.Pick([]string{"~", "~/x", "a:~:b", "$N", "x$N", "${N:=$((_y1=7))}", "${N:-$((X=3))}", "${N:+$((X=4))}", "${N%$((_y1=_y1+1))}", "${N##$((_y1=_y1+1))}"})
 			}
 			op = Op{Op: "expand", Name: anyName(), Value: strings.ReplaceAll(tmpl, "W", src.Pick(c20Words)), Mode: []uint{0, uint(interp.Quote), 0, uint(interp.Literal), uint(interp.Pattern), uint(interp.Assign), uint(interp.Arith), 0}[src.Intn(8)]}
 		case 9, 10:
@@ -530,6 +530,17 @@ func (p c20) Run(t *testing.T, c *Case, s Sched, keepLog bool) *Obs {
 					}
 				}
 				switch {
+				case strings.Contains(inner, "$((_y1=_y1+1))"):
+					// the pattern word is expanded (once) when the parameter is set and not null
+					if cur, ok := cleanInt(m.vars["_y1"]); ok && set && !null && err == nil {
+						m.vars["_y1"] = strconv.Itoa(cur + 1)
+						live.Assigns++
+					} else if !ok && set && !null {
+						// _y1 holds something else: the effect is not pinned here; resynchronise the model
+						if v, s2 := env.Get("_y1"); s2 {
+							m.vars["_y1"] = v.Value
+						}
+					}
 				case strings.Contains(inner, "$((_y1=7))"):
 					need := !set || null
 					if need && !isSpecial(op.Name) && !isPositional(op.Name) {
